@@ -508,6 +508,13 @@ func (m *machine) inInt64Range(d *Term, neg bool) bool {
 	if d.Op == "str.from_int" {
 		return true // canonical numeral of an int64 quantity
 	}
+	if m.digitsMax > 0 {
+		// bound of this harness: numerals of at most digitsMax digits
+		if m.branch(mkCmp("<=", mkLen(d), mkInt(int64(m.digitsMax)))) {
+			return true
+		}
+		panic(cut{fmt.Sprintf("numeral of more than %d digits (outside bound)", m.digitsMax)})
+	}
 	z := m.freshStr("zeros")
 	e := m.freshStr("sig")
 	m.assume(mkStrEq(d, mkConcat(z, e)))
